@@ -268,6 +268,12 @@ class MolQueryReader(object):
             self.ReadAtomConstraintChain(tree[2][1:], molquery, idx)
 
     def ReadBondTypeBondedAtom(self, idx, idx_connected, bondtype, molquery):
+        if idx == idx_connected or \
+                molquery.mol.GetBondBetweenAtoms(idx, idx_connected):
+            raise RINGReaderError('Bond between ' + molquery.atom_names[idx]
+                                  + ' and ' + molquery.atom_names[idx_connected]
+                                  + ' cannot be declared (same atom or'
+                                  + ' already bonded)')
         if bondtype == 'single':
             molquery.mol.AddBond(idx, idx_connected, Chem.BondType.SINGLE)
         elif bondtype == 'double':
